@@ -3,6 +3,7 @@ from lib import pipeline
 from lib.props.c08 import parse_view, reach, succ
 
 LEVEL = "proof"
+RELEASE_TOO = True
 MODEL_FILES = ["Model/View.v", "Model/Traversal.v", "Model/AlgoBasic.v", "Model/UnionFindM.v", "Model/CondenseM.v", "Model/AlgoIO.v"]
 THEOREMS = []
 EXTRA_PROPS = ["C09b"]
